@@ -456,7 +456,9 @@ func runC06(tier string, r *Result) {
 		depth = 2
 	}
 	ins := []string{"type", "method", "error", "T", "a", "(", ")", ":", ",", "->", "?", "[]", "[string]", "[int]", "int", "§", "interface", "#", "#\n", "# c\n", "#  \n", "#\r\n",
-		"[T]", "[strin]", "[stringy]", "[?]", "[(]", "[a]", "[ ]", "[string ]"}
+		"[T]", "[strin]", "[stringy]", "[?]", "[(]", "[a]", "[ ]", "[string ]",
+		// a comment start with a NUL (or other control byte) in it: whatever follows on the line is comment text
+		"# \x00", "#\x00", "# \x1b", "#a\x00b "}
 	for ti, d := range treeSet(depth) {
 		if !r.mine(ti) {
 			continue
